@@ -107,6 +107,17 @@ def run(res, tier, seed):
         res.count("solver_safe" if safe else "not_solver_safe")
         if naux >= 2:
             res.nt(canon(m)); res.count("aux_columns>=2")
+        # how many generated models meet every hypothesis of C02_sound_validated (besides validation itself, which gen_valid
+        # established): no by-id leaf reference to a sub-proposition, generated flags coherent per id, every compound has a child
+        nodes = all_nodes(m)
+        comp_ids = {x.id for x in nodes if not is_var(x)}
+        gen_by_id = {}
+        for x in nodes:
+            if not is_var(x):
+                gen_by_id.setdefault(x.id, set()).add(bool(x.generated_id))
+        hyp = (not any(is_var(x) and x.id in comp_ids for x in nodes) and all(len(v) == 1 for v in gen_by_id.values())
+               and all(len(x.propositions) > 0 for x in nodes if not is_var(x)))
+        res.count("meets_hypotheses_of_C02_sound_validated" if hyp and safe else "outside_hypotheses_of_C02_sound_validated")
         if expects_safe(ast):
             res.count("constructors_keep_safe_form")
             if has_neg_built_over_compound(ast):
